@@ -9,7 +9,7 @@ from ..gen import J, JI
 from . import lincommon as lc
 
 PROP = "C16"
-MONITORS = ("WF",)
+MONITORS = ("WF", "FORM")
 HOSTILE = ('special',)
 ANCHORS = [("approximate_conditional.py", "LConjugateFactorMGaussianConditional.get_expected_moments"),
            ("approximate_conditional.py", "LConjugateFactorMGaussianConditional.get_expected_cross_terms"),
